@@ -250,6 +250,10 @@ func (fs *FS) Remove(name string) error {
 	if err != nil {
 		return fs.wrapperErr("remove", name, err)
 	}
+	if name == "." {
+		// the root directory can't be removed, every other file hangs off of it
+		return fs.wrapperErr("remove", name, hackpadfs.ErrInvalid)
+	}
 
 	if file.Mode().IsDir() {
 		dirNames, err := file.ReadDirNames()
@@ -326,6 +330,10 @@ func (fs *FS) Rename(oldname, newname string) error {
 func (fs *FS) checkRenameDestination(oldname, newname string, oldInfo hackpadfs.FileInfo) error {
 	if oldname == newname {
 		return nil
+	}
+	if oldname == "." {
+		// the root directory can't be moved
+		return hackpadfs.ErrInvalid
 	}
 	if strings.HasPrefix(newname, oldname+"/") {
 		if oldInfo.IsDir() {
